@@ -69,8 +69,10 @@ func init() {
 	concSpec("C09", &ConcOpts{
 		Profile: Profile{Prop: "C09", NoExp: true, Keys: [2]int{1, 2}},
 		OpW:     c9, Tasks: [2]int{2, 3}, OpsPer: [2]int{2, 8}, Prefill: [2]int{0, 2},
-		Executors: []string{"default", "sync", "queued"}, Lin: true,
-		NonTrivial: func(o *ConcOutcome) bool { return o.Probes["write-inside-load-window"] > 0 },
+		Executors: []string{"default", "sync", "queued"}, Lin: true, AllowStall: true, StallP: 4,
+		NonTrivial: func(o *ConcOutcome) bool {
+			return o.Probes["write-while-loader-runs"]+o.Probes["write-between-loader-return-and-install"] > 0
+		},
 	})
 	// C14: default executor, no CleanUp, audit at quiescence.
 	c14 := zeroExcept(map[string]int{"set": 24, "setifabsent": 4, "get": 10, "compute": 5, "invalidate": 6, "load": 3, "setmax": 1, "getmax": 1, "wsize": 1, "hottest": 1, "coldest": 1, "invalidateall": 1})
